@@ -47,6 +47,7 @@ def applyOp (m : CMod) (s : St) (op : String) (arg : Int) : Option (Int × St) :
   | "seek_time" => xmpSeekTime m s arg
   | "restart_module" => some (0, xmpRestart s)
   | "stop_module" => some (0, xmpStop s)
+  | "start_player" => some (0, xmpStartPlayer m s)
   | _ => some (0, s)
 
 partial def loop (h : IO.FS.Stream) (m : CMod) (pre : St) : IO Unit := do
